@@ -176,6 +176,14 @@ func genRef(r *Rand, p *Plan, tier string, focus string) {
 	g := &refGen{r: r, d: d, sid: uint32(r.Intn(1 << 20))}
 	g.names, g.pws = DocUsers(d)
 	p.Scen.Docs = []model.Doc{d}
+	// swarm: a minority of runs inject transport faults and let the clock run ahead of
+	// the clients (completeness clauses are off in those runs, soundness stays on)
+	faulty := r.Chance(15) && focus != "C13"
+	if faulty {
+		p.Scen.Faulty = true
+		p.Scen.Stall = r.Chance(40)
+		p.Family += "-faulty"
+	}
 	nCli := 1 + r.Intn(up(3))
 	if focus == "C13" {
 		nCli = 2 + r.Intn(up(4))
@@ -295,6 +303,24 @@ func genRef(r *Rand, p *Plan, tier string, focus string) {
 		}
 		if r.Chance(50) {
 			cs.Ops = append(cs.Ops, Op{Kind: "close"})
+		}
+		if faulty {
+			// transport faults inside the exchange: the server's k-th write fails, is cut
+			// short or blocks; or the client resets instead of closing
+			switch r.Intn(4) {
+			case 0:
+				cs.WFault = append(cs.WFault, WFaultAt(1+r.Intn(4), "error"))
+			case 1:
+				cs.WFault = append(cs.WFault, WFaultAt(1+r.Intn(4), "short"))
+			case 2:
+				cs.WFault = append(cs.WFault, WFaultAt(1+r.Intn(4), "park"))
+			case 3:
+				if n := len(cs.Ops); n > 0 && cs.Ops[n-1].Kind == "close" {
+					cs.Ops[n-1].Kind = "reset"
+				} else {
+					cs.Ops = append(cs.Ops, Op{Kind: "reset"})
+				}
+			}
 		}
 		p.Scen.Clients = append(p.Scen.Clients, cs)
 	}
